@@ -1,6 +1,155 @@
-(** Properties_C07.v — statements only (work in progress). *)
+(** Properties_C07.v — statements only.  Each theorem is closed by [exact <lemma of ImportProofs>] and followed
+    by Print Assumptions.
+    C07: import resolution terminates, succeeds exactly when possible, reports failures.
+
+    Model: ImportDefs.v (Importer::resolveImports, fetchUnits, fetchComponent, fetchModel, the history epochs
+    and cycle predicate, the library cache, Model::hasUnresolvedImports, the pre-flatten scan of flattenModel).
+    Specifications: ImportSpec.v ([Resolvable] = every transitive import can be satisfied; [CodeResolvable] =
+    what the importer's own traversal demands; the hypotheses [NoErrs], [Shallow], [AcyclicFiles], [NoTwin]). *)
 From Coq Require Import String Ascii List Bool.
-From LC Require Import ImportDefs ImportProofs.
-Theorem C07_placeholder : True.
-Proof. exact ImportProofs.placeholder_true. Qed.
-Print Assumptions C07_placeholder.
+From LC Require Import ImportDefs ImportSpec ImportProofs.
+Import ListNotations.
+Local Open Scope string_scope.
+
+(** 1. Termination.  On EVERY file system (cyclic import graphs, self imports, missing and malformed files
+    included), from EVERY importer state (any stale library), resolveImports returns: the history test cuts
+    every import path after at most 2·(number of files + library entries) + 1 hops. *)
+Theorem C07_resolve_terminates : forall strict fs st m0 fuel,
+  fuel_bound fs st <= fuel ->
+  exists b st', resolve_imports fuel strict fs st m0 = Ok (b, st').
+Proof. exact ImportProofs.resolve_terminates. Qed.
+Print Assumptions C07_resolve_terminates.
+
+(** 2. Failure is reported: resolveImports = false leaves at least one issue, and an issue is attached to a
+    top-level importing units / component of the model whose fetch failed. *)
+Theorem C07_resolve_false_issue : forall fuel strict fs st m0 st',
+  resolve_imports fuel strict fs st m0 = Ok (false, st') ->
+  issues_rev st' <> [] /\
+  exists i, In i (issues_rev st') /\
+    ((exists u s1 s2, In u (imported_units m0) /\ i_item i = ItUnits None (uname u) /\
+                      fetch_units fuel strict fs m0 s1 None [] u = Ok (false, s2))
+     \/ (exists c s1 s2, In c (imported_comps m0) /\ i_item i = ItComp None (cname c) /\
+                         fetch_comp fuel strict fs m0 s1 None [] c = Ok (false, s2))).
+Proof. exact ImportProofs.resolve_false_issue. Qed.
+Print Assumptions C07_resolve_false_issue.
+
+(** 3. resolveImports = true, exactly.  On an importer whose library caches (part of) the file system — a new
+    Importer, or any importer after removeAllModels — and when no file carries parser errors, the answer is
+    true iff the importer's own demands are met ([CodeResolvable]: the import closure as fetchUnits /
+    fetchComponent traverse it, with the cycle rule of checkForImportCycles). *)
+Theorem C07_resolve_true_iff_code : forall fs strict st m0 fuel,
+  NoErrs fs -> cons fs st -> fuel_bound fs st <= fuel ->
+  exists b st', resolve_imports fuel strict fs st m0 = Ok (b, st') /\ (b = true <-> CodeResolvable fs m0).
+Proof. exact ImportProofs.resolve_true_iff_code. Qed.
+Print Assumptions C07_resolve_true_iff_code.
+
+(** The importer's demands against the property's notion.  [Shallow] (finding C07-unexamined-dependencies as a
+    hypothesis) makes the demands sufficient; [AcyclicFiles] and [NoTwin] (the property's exclusion: files that
+    import from each other; and a file equal to the model being resolved) make them necessary. *)
+Theorem C07_code_resolvable_resolvable : forall fs m0,
+  Shallow fs -> CodeResolvable fs m0 -> Resolvable fs m0.
+Proof. exact ImportProofs.code_resolvable_resolvable. Qed.
+Print Assumptions C07_code_resolvable_resolvable.
+
+Theorem C07_resolvable_code_resolvable : forall fs m0 (rank : string -> nat),
+  (forall k sm url, fs_model fs k = Some sm -> In url (import_urls sm) -> rank (mk_key url) < rank k) ->
+  NoTwin fs m0 -> Resolvable fs m0 -> CodeResolvable fs m0.
+Proof. exact ImportProofs.resolvable_code_resolvable. Qed.
+Print Assumptions C07_resolvable_code_resolvable.
+
+(** 3'. The property's statement, with the hypotheses the code needs stated:
+    resolveImports = true  <->  every transitive import can be satisfied. *)
+Theorem C07_resolve_true_iff_partial : forall fs strict st m0 fuel,
+  NoErrs fs -> Shallow fs -> AcyclicFiles fs -> NoTwin fs m0 ->
+  cons fs st -> fuel_bound fs st <= fuel ->
+  exists b st', resolve_imports fuel strict fs st m0 = Ok (b, st') /\ (b = true <-> Resolvable fs m0).
+Proof. exact ImportProofs.resolve_true_iff_partial. Qed.
+Print Assumptions C07_resolve_true_iff_partial.
+
+(** … and without [Shallow] it is false (finding C07-unexamined-dependencies): an import behind two local
+    units is never fetched; resolveImports answers true, without an issue, although the file is missing. *)
+Theorem C07_resolve_true_iff_refuted :
+  exists fs m0 st', NoErrs fs /\ resolve_imports (fuel_bound fs empty_state) true fs empty_state m0 = Ok (true, st') /\
+                    issues_rev st' = [] /\ ~ Resolvable fs m0.
+Proof. exact ImportProofs.resolve_true_iff_refuted. Qed.
+Print Assumptions C07_resolve_true_iff_refuted.
+
+(** 4. A failure leaves the importer usable.  removeAllModels gives exactly a fresh importer's resolution … *)
+Theorem C07_resolve_after_clear : forall fuel strict fs st m0,
+  resolve_imports fuel strict fs (remove_all_models st) m0 = resolve_imports fuel strict fs empty_state m0.
+Proof. exact ImportProofs.resolve_after_clear. Qed.
+Print Assumptions C07_resolve_after_clear.
+
+(** … so after the fault is repaired, a resolution after removeAllModels (from ANY importer state, whatever it
+    has seen) or on a new Importer succeeds. *)
+Theorem C07_retry_after_repair : forall fs' strict st m0 fuel,
+  NoErrs fs' -> Shallow fs' -> AcyclicFiles fs' -> NoTwin fs' m0 -> Resolvable fs' m0 ->
+  fuel_bound fs' empty_state <= fuel ->
+  exists st', resolve_imports fuel strict fs' (remove_all_models st) m0 = Ok (true, st').
+Proof. exact ImportProofs.retry_after_repair. Qed.
+Print Assumptions C07_retry_after_repair.
+
+(** Without removeAllModels the same importer keeps the stale library entry (DESIGN row 32: not a finding, the
+    reading of "fresh resolution" is library cleared / new importer). *)
+Theorem C07_retry_same_importer_refuted :
+  exists bad good m0 st1 st2 st3,
+    Resolvable good m0 /\
+    resolve_imports (fuel_bound bad empty_state) true bad empty_state m0 = Ok (false, st1) /\
+    resolve_imports (fuel_bound good st1) true good st1 m0 = Ok (false, st2) /\
+    resolve_imports (fuel_bound good empty_state) true good (remove_all_models st2) m0 = Ok (true, st3).
+Proof. exact ImportProofs.retry_same_importer_refuted. Qed.
+Print Assumptions C07_retry_same_importer_refuted.
+
+(** K35: parser errors of an imported file are only seen by the call that loads it: the same call repeated on
+    the same importer and the same files answers false, then true with no issue. *)
+Theorem C07_resolve_repeatable_refuted :
+  exists fs m0 st1 st2,
+    resolve_imports (fuel_bound fs empty_state) true fs empty_state m0 = Ok (false, st1) /\
+    resolve_imports (fuel_bound fs st1) true fs st1 m0 = Ok (true, st2) /\ issues_rev st2 = [].
+Proof. exact ImportProofs.resolve_repeatable_refuted. Qed.
+Print Assumptions C07_resolve_repeatable_refuted.
+
+(** 5. "after which hasUnresolvedImports() is false" does not hold for the code as it is:
+    (a) finding C07-units-history-not-popped — a diamond below a local units: every import can be satisfied,
+        resolveImports = true, and hasUnresolvedImports() = true; false once the history is popped (fx_pop);
+    (b) finding C07-unexamined-dependencies — the import the importer never fetched stays unresolved;
+    (c) finding C07-null-deref-dangling-units-ref — without any import, hasUnresolvedImports() and the
+        pre-flatten scan dereference null ([Crash]); fine with the null test (fx_nullref). *)
+Theorem C07_resolve_true_post_refuted :
+  exists fs m0 st', Resolvable fs m0 /\
+    resolve_imports (fuel_bound fs empty_state) true fs empty_state m0 = Ok (true, st') /\
+    has_unresolved_imports no_fixes (scan_fuel fs st' m0) st' m0 = Ok true /\
+    has_unresolved_imports {| fx_pop := true; fx_nullref := false |} (scan_fuel fs st' m0) st' m0 = Ok false.
+Proof. exact ImportProofs.resolve_true_post_refuted. Qed.
+Print Assumptions C07_resolve_true_post_refuted.
+
+Theorem C07_resolve_true_post_refuted_unexamined :
+  exists fs m0 st', Resolvable fs m0 /\
+    resolve_imports (fuel_bound fs empty_state) true fs empty_state m0 = Ok (true, st') /\
+    has_unresolved_imports no_fixes (scan_fuel fs st' m0) st' m0 = Ok true.
+Proof. exact ImportProofs.resolve_true_post_refuted_unexamined. Qed.
+Print Assumptions C07_resolve_true_post_refuted_unexamined.
+
+Theorem C07_unresolved_test_crash_refuted :
+  exists m0 st', resolve_imports (fuel_bound [] empty_state) true [] empty_state m0 = Ok (true, st') /\
+                 has_unresolved_imports no_fixes (scan_fuel [] st' m0) st' m0 = Crash /\
+                 flatten_precheck no_fixes (scan_fuel [] st' m0) st' m0 = Crash /\
+                 has_unresolved_imports {| fx_pop := false; fx_nullref := true |} (scan_fuel [] st' m0) st' m0 = Ok false.
+Proof. exact ImportProofs.unresolved_test_crash_refuted. Qed.
+Print Assumptions C07_unresolved_test_crash_refuted.
+
+(** 6. K3: cyclic LOCAL units inside an imported file: resolveImports = true without an issue, and the
+    pre-flatten scan of flattenModel never returns — out of fuel for EVERY fuel (stack exhaustion). *)
+Theorem C07_flatten_precheck_cyclic_units_refuted :
+  exists fs m0 st', resolve_imports (fuel_bound fs empty_state) true fs empty_state m0 = Ok (true, st') /\
+                    issues_rev st' = [] /\
+                    forall fuel, flatten_precheck no_fixes fuel st' m0 = OutOfFuel.
+Proof. exact ImportProofs.flatten_precheck_cyclic_units_refuted. Qed.
+Print Assumptions C07_flatten_precheck_cyclic_units_refuted.
+
+(** Non-vacuity: a file system that satisfies every hypothesis above, is resolvable, and resolves. *)
+Example C07_nonvacuous :
+  NoErrs ex_fs /\ Shallow ex_fs /\ AcyclicFiles ex_fs /\ NoTwin ex_fs ex_m0 /\ Resolvable ex_fs ex_m0 /\
+  exists st', resolve_imports (fuel_bound ex_fs empty_state) true ex_fs empty_state ex_m0 = Ok (true, st').
+Proof. exact ImportProofs.nonvacuous. Qed.
+Print Assumptions C07_nonvacuous.
